@@ -55,7 +55,7 @@ ASSUMPTIONS = [
     "sliver names obey the library's own name validators, so in sliver/topology operations names are identifiers and "
     "site / boot script / details / model are the values",
 ]
-BUDGET = {"quick": 40000, "thorough": 900000}
+BUDGET = {"quick": 80000, "thorough": 1200000}
 MIN_LABEL_FRACTION = {"has-quote": 0.4, "has-backslash": 0.2, "has-brace": 0.15, "has-dollar": 0.1,
                       "has-newline": 0.1, "has-keyword": 0.05, "long": 0.02, "kind:primitive": 0.3,
                       "kind:compound": 0.2, "aligned": 0.9}
@@ -86,9 +86,10 @@ ADVERSARIAL = [
 ]
 _SAFE = st.characters(min_codepoint=0x20, max_codepoint=0x2FF, blacklist_categories=("Cs", "Cc"))
 _WIDE = st.characters(blacklist_categories=("Cs", "Cc", "Cn"), blacklist_characters="\ufffe\uffff")
+_frag_value = st.lists(st.one_of(st.sampled_from(FRAGS), st.text(alphabet=_SAFE, max_size=5)), min_size=1,
+                       max_size=6).map("".join)
 _value = st.one_of(
-    st.lists(st.one_of(st.sampled_from(FRAGS), st.text(alphabet=_SAFE, max_size=5)), min_size=1, max_size=6)
-    .map("".join),
+    _frag_value, _frag_value, _frag_value,
     st.sampled_from(ADVERSARIAL),
     st.text(alphabet=_WIDE, max_size=12),
     st.builds(lambda s, n: (s * n)[:3000], st.sampled_from(FRAGS[:20] + ["ab", "x'y"]), st.integers(150, 1500)),
